@@ -1078,4 +1078,52 @@ theorem mostSignificantBits_spec (a : List ℕ) (ha : AllLt a) :
         have : (2 : ℕ) ^ 64 = W := rfl
         rw [this, Nat.add_mul_div_left _ _ W_pos, Nat.div_eq_of_lt hlo, Nat.zero_add]
 
+/-- the top significant bit is set and everything above it is clear. -/
+theorem size_testBit (x : ℕ) :
+    (x ≠ 0 → x.testBit (size x - 1) = true) ∧ ∀ i, size x ≤ i → x.testBit i = false := by
+  obtain ⟨b1, b2⟩ := size_bounds x
+  constructor
+  · intro hx
+    have b2 := b2 hx
+    have hs : size x ≠ 0 := by
+      intro h0; rw [h0] at b1; simp at b1; exact hx b1
+    rw [Nat.testBit_eq_decide_div_mod_eq, decide_eq_true_eq]
+    have hp : 2 ^ size x = 2 ^ (size x - 1) * 2 := by
+      rw [← pow_succ]; congr 1; omega
+    have h1 : x / 2 ^ (size x - 1) = 1 := by
+      apply Nat.div_eq_of_lt_le
+      · omega
+      · omega
+    rw [h1]
+  · intro i hi
+    exact Nat.testBit_lt_two_pow (lt_of_lt_of_le b1 (Nat.pow_le_pow_right (by norm_num) hi))
+
+/-- bits of `2^t · m` with `m` odd. -/
+theorem testBit_pow_mul_odd (t m : ℕ) (hm : m % 2 = 1) :
+    (∀ i, i < t → (2 ^ t * m).testBit i = false) ∧ (2 ^ t * m).testBit t = true := by
+  constructor
+  · intro i hi
+    rw [Nat.mul_comm, Nat.testBit_mul_two_pow]
+    have : ¬ t ≤ i := by omega
+    simp [this]
+  · rw [Nat.mul_comm, Nat.testBit_mul_two_pow, Nat.sub_self, Nat.testBit_zero]
+    simp [hm]
+
+/-- bits of `2^t · m − 1` with `m` odd. -/
+theorem testBit_pow_mul_odd_pred (t m : ℕ) (hm : m % 2 = 1) :
+    (∀ i, i < t → (2 ^ t * m - 1).testBit i = true) ∧ (2 ^ t * m - 1).testBit t = false := by
+  have hp : 0 < 2 ^ t := by positivity
+  have e : 2 ^ t * m - 1 = 2 ^ t * (m - 1) + (2 ^ t - 1) := by
+    have : 2 ^ t * m = 2 ^ t * (m - 1) + 2 ^ t := by
+      rw [← Nat.mul_succ]; congr 1; omega
+    omega
+  have hlt : 2 ^ t - 1 < 2 ^ t := by omega
+  rw [e]
+  constructor
+  · intro i hi
+    rw [Nat.testBit_two_pow_mul_add _ hlt, if_pos hi, Nat.testBit_two_pow_sub_one]
+    simp [hi]
+  · rw [Nat.testBit_two_pow_mul_add _ hlt, if_neg (by omega), Nat.sub_self, Nat.testBit_zero]
+    simp; omega
+
 end Ruint.Bits
